@@ -441,3 +441,26 @@ package nfa
 //@   opt elems_nonnil=regexp/syntax.Regexp
 //@   requires re != nil
 //@   ensures result <==> (exactLit(re) || (re.Op == 18 && len(re.Sub) == 2 && exactLit(re.Sub[0]) && asciiClass(re.Sub[1])) || (re.Op == 15 && (re.Flags & 32) == 0 && len(re.Sub) == 1 && re.Sub[0].Op == 4 && byteClassN(re.Sub[0])))
+
+// composite DFA applicability: the automaton does not count, so every part must be "one or more" (min exactly 1,
+// no upper bound)
+//@ trusted func extractCompositeCharClassParts
+//@   ensures forall k :: 0 <= k && k < len(result) ==> result[k] != nil
+//@ trusted func (*CompositeSequenceDFA).buildByteClasses
+//@   modifies d.*
+//@   ensures sameslice(d.parts, old(d.parts))
+//@ trusted func (*CompositeSequenceDFA).buildDFASubsetConstruction
+//@   modifies d.*
+//@   ensures sameslice(d.parts, old(d.parts))
+//@ func IsCompositeSequenceDFAPattern
+//@   props C19
+//@   ghost ps = 0
+//@   after call extractCompositeCharClassParts: ghost ps = len(lastcall)
+//@   ensures result ==> 1 <= ps && ps <= 8
+//@   loop 1: invariant -1 <= rangeindex && rangeindex < rangelen && rangelen == len(parts) && (forall k :: 0 <= k && k <= rangeindex ==> parts[k].minMatch == 1 && parts[k].maxMatch <= 0)
+//@   loop 1: decreases rangelen - rangeindex
+//@ func NewCompositeSequenceDFA
+//@   props C19
+//@   ensures result != nil ==> 1 <= len(result.parts) && len(result.parts) <= 8 && (forall k :: 0 <= k && k < len(result.parts) ==> result.parts[k].minMatch == 1 && result.parts[k].maxMatch <= 0)
+//@   loop 1: invariant -1 <= rangeindex && rangeindex < rangelen && rangelen == len(parts) && (forall k :: 0 <= k && k <= rangeindex ==> parts[k].minMatch == 1 && parts[k].maxMatch <= 0)
+//@   loop 1: decreases rangelen - rangeindex
